@@ -533,6 +533,27 @@ func (f *Frame) callResolved(in ssa.Instruction, cc *ssa.CallCommon, fnv SV, arg
 			c.oblige("callspec", cl.Tags, g, e.boolClause(cl), f.where(in), "guarantee at call of parameter "+par.Name()+": "+cl.Text)
 		}
 	}
+	// a function value read from a struct field (e.g. backend.MakeReader(...)): `callspec <Field> requires ...`
+	if u, ok := cc.Value.(*ssa.UnOp); ok && u.Op == token.MUL && f.isRoot && f.contract != nil {
+		if fa, ok := u.X.(*ssa.FieldAddr); ok {
+			if pt, ok := fa.X.Type().Underlying().(*types.Pointer); ok {
+				if stt, ok := pt.Elem().Underlying().(*types.Struct); ok {
+					fname := stt.Field(fa.Field).Name()
+					for _, cl := range f.contract.CallSpecs[fname] {
+						e := f.specEnv(st, f.entrySt, nil)
+						sig := cc.Signature()
+						for i, a := range args {
+							if i < sig.Params().Len() {
+								e.vars[fmt.Sprintf("p%d", i)] = specVar{sv: a, typ: sig.Params().At(i).Type()}
+							}
+						}
+						e.prove = true
+						c.oblige("callspec", cl.Tags, g, e.boolClause(cl), f.where(in), "guarantee at call of function field "+fname+": "+cl.Text)
+					}
+				}
+			}
+		}
+	}
 	return f.havocCall(in, "func-value:"+cc.Value.Name(), args, cc, st, g)
 }
 
